@@ -290,7 +290,10 @@ def drv_misid(tier, shard, nshard):
                 g = wrapped(arg, ns, [10, 20], 'E', 'M1', flag=3)
             else:
                 g = wrapped(arg, ns, pts=[10, 20])
+            seen_call = dict(seen)
             base = model(params, ns, None)
+            seen.clear()
+            seen.update(seen_call)
             want = (1 - p) * base.data + p * o_mirror(numpy.array(base.data))
             wmask = numpy.ma.getmaskarray(base) | o_mirror(numpy.ma.getmaskarray(base))
             ok, e = close(g.data, want, wmask, RT)
